@@ -618,8 +618,17 @@ class SolverStack:
         self.cache = {}
 
     def model_value(self, pc, term):
-        self.full.sync(pc)
+        """a candidate value of term: from a model of the quantifier-free part of the path condition first (cheap and
+        deterministic), from the full path condition otherwise; the caller confirms the candidate with valid()"""
         self.n_checks += 1
+        qpc = [f for f in pc if not has_quantifier(f)]
+        self.qf.sync(qpc)
+        if self.qf.s.check() == z3.sat:
+            try:
+                return self.qf.s.model().eval(term, model_completion=True)
+            except Exception:
+                pass
+        self.full.sync(pc)
         if self.full.s.check() != z3.sat:
             return None
         try:
